@@ -35,7 +35,7 @@ ASSUMPTIONS = [
     'parseable as a number',
 ]
 ANCHORS = ['Table.delimited_self', 'Table._extract_data_from_tsv', 'Table.from_tsv', '_convert', 'parse_biom_table']
-REQUIRED = ['ids_with_blanks_at_their_edges', 'non_finite_value_in_last_column', 'export_legacy_function', 'export_other_column_name',
+REQUIRED = ['scale_exports', 'ids_with_blanks_at_their_edges', 'non_finite_value_in_last_column', 'export_legacy_function', 'export_other_column_name',
             'import_legacy_convert_table_to_biom', 'export_asked_for_absent_metadata', 'exported_again_after_change', 'export_to_tsv', 'export_str', 'export_direct_io',
             'export_cli', 'import_from_tsv_lines', 'import_from_tsv_handle',
             'import_load_table', 'import_load_table_gz',
@@ -399,3 +399,45 @@ def _cli(args):
     from click.testing import CliRunner
     from biom.cli import cli
     return CliRunner().invoke(cli, args)
+
+
+def stress(ctx):
+    """Scale: many observations / many samples through every exporter and
+    back (block sizes such as 1024, 4096, 8192 are crossed)."""
+    biom = ctx.biom
+    r = ctx.rng('stress')
+    for n, m in ((4097, 2), (8200, 1), (2, 4100), (1025, 3)):
+        rng = np.random.default_rng(r.randrange(2 ** 32))
+        D = rng.integers(0, 4, size=(n, m)).astype(float)
+        D[-1, -1] = 7.5
+        D[0, 0] = 1e-07
+        obs = ['o%05d' % i for i in range(n)]
+        samp = ['s%05d' % i for i in range(m)]
+        t = biom.Table(D, obs, samp)
+        for exporter in ('to_tsv', 'str', 'direct_io'):
+            if exporter == 'to_tsv':
+                text = t.to_tsv()
+            elif exporter == 'str':
+                text = str(t)
+            else:
+                buf = io.StringIO()
+                t.to_tsv(direct_io=buf)
+                text = buf.getvalue()
+            desc = {'scale': '%dx%d via %s' % (n, m, exporter)}
+            o, s_, D2, _, _ = tsvspec.decode(text, False)
+            if o != obs or s_ != samp or not snap.bits_equal(D2, D):
+                raise Violation('C03/export-values', 'scale: the text has %d '
+                                'observations x %d samples (last ids %r / '
+                                '%r); %r' % (len(o), len(s_), o[-1:], s_[-1:],
+                                             desc))
+            lines = text.split('\n')
+            if lines and lines[-1] == '':
+                lines.pop()
+            t2 = biom.Table.from_tsv(lines, None, None, lambda x: x)
+            g = snap.snap(t2)
+            if g.obs_ids != obs or g.samp_ids != samp or \
+                    not snap.bits_equal(g.D, D):
+                raise Violation('C03/roundtrip-differs/from_tsv_lines',
+                                'scale: %r' % (desc,))
+            ctx.count('scale_exports')
+            ctx.case(desc, True)
